@@ -183,7 +183,8 @@ PROPERTIES["C16"] = {
 }
 
 
-VENEERS_HARNESS = _h(("internal/zzverif/hveneers/zz_verif_c17.go", "harness/hveneers/zz_verif_c17.go"))
+VENEERS_HARNESS = _h(("internal/zzverif/hveneers/zz_verif_c17.go", "harness/hveneers/zz_verif_c17.go"),
+                     ("internal/zzverif/hveneers/zz_verif_c14.go", "harness/hveneers/zz_verif_c14.go"))
 
 PROPERTIES["C17"] = {
     "level_text": "Bounded symbolic execution + SMT of rewrite.Rewriter.ApplyTo with one option rule (11 actions) or one builder rule (5 rules) and a symbolic selector, on builders "
@@ -391,4 +392,16 @@ PROPERTIES["C10"] = {
     "bounds": {"schema": "object with 1/2 properties x 7 kinds, defaults present or absent, Required symbolic"},
     "runs": [Run("jsonschema_parser", ["./internal/jsonschema"], _h(("internal/jsonschema/zz_verif_c10.go", "harness/pjsonschema/zz_verif_c10.go")),
                  ["VerifC10JSONSchemaDefaults"], "internal/jsonschema", needs_leaf=True)],
+}
+
+
+PROPERTIES["C14"] = {
+    "level_text": "Bounded symbolic execution + SMT of languages.ConverterGenerator.FromBuilder (convertOption, mappingForOption, guardForAssignments, argumentForType, constructorArgs, "
+                  "assignmentKey) on builders derived by the REAL FromAST, optionally after one option rule (array_to_append, map_to_index, unfold_boolean, struct_fields_as_arguments/options, "
+                  "duplicate): the options the converter maps are exactly, and in order, the options needed to reproduce a value (each assignment target covered once); each mapped option has "
+                  "exactly one argument mapping per assignment to reproduce, each naming exactly one mapping kind; constructor arguments are mapped exactly once.",
+    "level_note": "In part (IR level): `the text returned by the generated converter is a valid Go expression that rebuilds v` is template-rendered text judged by the Go compiler and is outside "
+                  "the claim. Bounds as C17 (Foo with 2 fields over 7 kinds).",
+    "bounds": {"builders": "as C17", "rules before conversion": "none or one of 6 option rules applied to every option"},
+    "runs": [Run("veneers", ["./internal/zzverif/hveneers"], VENEERS_HARNESS, ["VerifC14ConverterMapping"], "internal/zzverif/hveneers", test_pkg_name="hveneers", needs_leaf=True)],
 }
